@@ -84,11 +84,14 @@ def float_solver(chk: Check, n):
         data = A(5000, {"x": mean, "c": 1.0}, {"x": var, "c": vx}, {("c", "x"): rho * math.sqrt(var * vx)})
         alpha = rng.choice([0.01, 0.05, 0.1])
         power = rng.choice([0.5, 0.8, 0.9, 0.95])
+        if i % 5 == 2:
+            power = alpha * rng.choice([1.2, 1.5, 2.0, 3.0])      # a MODEST target: any power above alpha is a valid request
         sign = -1 if alt == "less" else 1
         kw = dict(alternative=alt, equal_var=ev, use_t=ut, alpha=alpha, ratio=ratio, power=power)
         cols = ("x", "c") if with_cov else ("x",)
         inp = dict(cell=[alt, ev, ut], ratio=ratio, alpha=alpha, power=power, var=var, mean=mean, covariate=with_cov)
         chk.case(("float", i, alt, ev, ut, ratio), nontrivial=True)
+        chk.branch("float:target=" + ("modest" if power < 0.5 else "usual"))
         chk.branch(f"float:ratio={round(ratio, 3)}")
         # ---- solve for the effect size at several n_obs
         ns = (int(rng.choice([50, 400, 5000, 10**5])), int(rng.choice([200, 3000, 10**6])))
